@@ -22,6 +22,7 @@ def calc_velo_and_disp_from_accel_arr(acceleration, dt, trap=True):
         displacement time series
     """
     from scipy.integrate import cumulative_trapezoid
+    acceleration = np.asarray(acceleration, dtype=float)  # array_like input; narrow integer types wrap around in the sums
     if trap is False:
         velocity = np.zeros(len(acceleration) + 1)
         velocity[1:] = acceleration * dt  # computes the increments
